@@ -35,6 +35,8 @@ static bool gen_c06(uint64_t seed, const std::string &tier, uint64_t i, Plan &p)
     else { msg = gen_body(r.next(), (size_t)r.range(0, 8000)); if (r.chance(0.85) && (msg.empty() || msg.back() != '\n')) msg += "\n"; lab = "random message"; }
   }
   p.knobs.set("msg", msg);
+  // legal short writes on the connection (a blocked writer that was signalled or stopped): write() accepts only a few of the bytes offered
+  if (r.chance(0.3)) { int nf = (int)r.range(1, 3); for (int q = 0; q < nf; q++) { Fault f; f.actor = "qmail-remote"; f.call = C_WRITE; f.nth = (int)r.range(1, 12); f.kind = "short"; f.arg = r.pick(std::vector<int64_t>{1, 2, 10, 100, 300, 500, 511, 513}); p.faults.push_back(f); } }
   bool relay = i % 5 == 4 && msg.find('\r') == std::string::npos;
   if (relay) { p.knobs.set("relay", true); lab += " (to own smtpd)"; }
   Json rc = Json::arr(); rc.push("u@r.example"); p.knobs.set("rcpts", rc);
@@ -98,10 +100,13 @@ static bool gen_c09(uint64_t seed, const std::string &tier, uint64_t i, Plan &p)
       std::string kind = q + 1 == n && r.chance(0.7) ? "accept" : r.pick(std::vector<std::string>{"refuse", "timeout", "accept"}); if (kind == "accept") any_accept = true; hosts.set(std::to_string(ip), Json::obj().set("kind", kind).set("delay", (long long)r.below(5))); }
     mx.set("r.example", mxl); zone.set("mx", mx).set("a", a); p.knobs.set("zone", zone).set("hosts", hosts);
     lab = "mx set of " + std::to_string(n) + (any_accept ? "" : " (none accepts)");
+    // a destination that has been unreachable for a while: two or three earlier attempts, minutes apart, then the judged one
+    if (!any_accept && r.chance(0.6)) { p.knobs.set("earlier_runs", (long long)r.range(1, 3)).set("earlier_gap_s", (long long)r.pick(std::vector<int64_t>{10, 130, 200, 1000, 5000})); lab += " after earlier attempts"; }
   } else if (net == 5) {   // resolver trouble
     p.knobs.erase("smtproutes"); Json zone = Json::obj(); Json fail = Json::obj(); fail.set("r.example", r.chance(0.6) ? "soft" : "hard"); zone.set("fail", fail); p.knobs.set("zone", zone);
     lab = "dns " + fail.gets("r.example");
   }
+  add_short_io(r, p, "qmail-remote", 0.2, false);
   p.label = lab + " rcpts=" + std::to_string(nr);
   return true;
 }
